@@ -36,6 +36,9 @@ Step(ev) ==
     [] ev.a = "arrdrop"   -> ArrDrop
     [] ev.a = "clone"     -> Clone(ev.arg.h, ev.arg.g)
     [] ev.a = "unshare"   -> Unshare(ev.arg.h, ev.arg.via)
+    [] ev.a = "nadd"      -> NotifyAdd(ev.arg.h)
+    [] ev.a = "nclear"    -> NotifyClear(ev.arg.o)
+    [] ev.a = "nfini"     -> NotifyFini
     [] ev.a = "bareset"   -> BareSet(ev.arg.v)
     [] ev.a = "bareraise" -> BareRaise(ev.arg.api)
     [] ev.a = "barelower" -> BareLower(ev.arg.api)
